@@ -6,4 +6,4 @@ Extraction "../ocaml/signing/model.ml" base_anchor keccak256
   secp_n secp_half_n signer_equal is_protected_v derive_chain_id validate_sig
   sighash_item tx_item encode_tx decode_tx signature_values with_signature
   sighash tx_hash recover_addr recover_plain sender_signer sender_cached sign_tx
-  make_signer pool_signer tx_of_json json_of_tx enc_hexbytes enc_quantity dec_quantity json_v_byte json_accepts encode.
+  make_signer pool_signer tx_of_json json_of_tx enc_hexbytes sender_seq with_signature_obj cache_load enc_quantity dec_quantity json_v_byte json_accepts encode.
